@@ -211,7 +211,8 @@ Record ainv (S : list str) (B : list blk) (d : xbw) : Prop := {
   ai_rowsA : forall n k c, nthN (rows_of B) n = Some (k, c) ->
       exists c0 k', k = c0 :: k' /\ n < lenN (x_A d) /\ bv_rank1 (x_A d) n = mapf d c0;
   ai_elems : x_elements d = lenN S;
-  ai_maxlen : x_maxlength d = spec_maxlen S + 1
+  ai_maxlen : x_maxlength d = spec_maxlen S + 1;
+  ai_mapsmall : forall c, mapf d c < 257
 }.
 
 Definition xinv (S : list str) (B : list blk) (d : xbw) : Prop := binv S B /\ ainv S B d.
@@ -277,13 +278,15 @@ Proof.
   - apply list_eqb_N. assumption.
   - apply list_eqb_bool. assumption.
   - apply N.eqb_eq. assumption.
-  - intros c Hc. rewrite forallb_forall in H4. apply H4. apply in_map_iff. exists (N.to_nat c).
+  - intros c Hc. rewrite forallb_forall in H5. apply H5. apply in_map_iff. exists (N.to_nat c).
     split; [lia|]. apply in_seq. lia.
   - apply N.eqb_eq. assumption.
-  - intros n k c Hn. destruct (chk_rowsA_sound d _ 0 H2 n k c Hn) as (c0 & k' & E1 & E2 & E3).
+  - intros n k c Hn. destruct (chk_rowsA_sound d _ 0 H3 n k c Hn) as (c0 & k' & E1 & E2 & E3).
     rewrite N.add_0_l in *. eauto.
   - apply N.eqb_eq. assumption.
   - apply N.eqb_eq. assumption.
+  - intros c. unfold mapf. destruct (nthN (x_mapping d) c) as [v|] eqn:E; [|lia].
+    rewrite forallb_forall in H0. unfold nthN in E. apply nth_error_In in E. specialize (H0 v E). lia.
 Qed.
 
 Theorem xbw_check_with_sound S B d : xbw_check_with S B d = true -> xinv S B d.
@@ -769,3 +772,997 @@ Section Cuts.
   Lemma Emp_of_eq w : NR (klt w) B = NR (kle w) B -> Emp w.
   Proof. apply cut_eq_NR; [apply klt_dclosed|apply kle_dclosed]. Qed.
 End Cuts.
+
+(* ================================================================== *)
+(* 5. the arrays: subPathSearch                                         *)
+(* ================================================================== *)
+Lemma u32_small x : x < W32 -> u32 x = x.
+Proof. intros H. unfold u32. apply N.mod_small. exact H. Qed.
+
+Lemma subu32_1 y : 1 <= y < W32 -> subu32 y 1 = y - 1.
+Proof.
+  intros H. unfold subu32. rewrite (u32_small 1) by (unfold W32; lia).
+  unfold u32. replace (y + W32 - 1) with (y - 1 + 1 * W32) by lia.
+  rewrite N.mod_add by (unfold W32; lia). apply N.mod_small. lia.
+Qed.
+
+Lemma NR_0 P B : neb B -> NR P B = 0 -> bsel P B = [].
+Proof.
+  intros H E. unfold NR in E. destruct (bsel P B) as [|b0 Bp] eqn:E2; [reflexivity|].
+  assert (snd b0 <> []).
+  { apply H. assert (In b0 (bsel P B)) by (rewrite E2; left; reflexivity). apply filter_In in H0. tauto. }
+  change (labels_of (b0 :: Bp)) with (snd b0 ++ labels_of Bp) in E. rewrite lenN_app in E.
+  destruct (snd b0); [congruence|]. rewrite lenN_cons in E. lia.
+Qed.
+
+Lemma NR_ge_blk P B b : In b B -> P (fst b) = true -> lenN (snd b) <= NR P B.
+Proof.
+  unfold NR, bsel. induction B as [|a B IH]; intros Hin HP; [destruct Hin|]. cbn [filter].
+  destruct Hin as [->|Hin].
+  - rewrite HP. change (labels_of (b :: ?X)) with (snd b ++ labels_of X). rewrite lenN_app. lia.
+  - specialize (IH Hin HP). destruct (P (fst a)); [|exact IH].
+    change (labels_of (a :: ?X)) with (snd a ++ labels_of X). rewrite lenN_app. lia.
+Qed.
+
+Section Arrays.
+  Variables (S : list str) (B : list blk) (d : xbw).
+  Hypothesis HB : binv S B.
+  Hypothesis HA : ainv S B d.
+
+  Lemma alpha_len : lenN (x_alpha d) = lenN (labels_of B).
+  Proof. rewrite (ai_alpha _ _ _ HA). apply lenN_map. Qed.
+  Lemma last_len : lenN (x_last d) = lenN (labels_of B).
+  Proof. rewrite (ai_last _ _ _ HA). apply lasts_len. Qed.
+  Lemma nodes_small : lenN (labels_of B) + 1 < W32.
+  Proof. rewrite <- (ai_nodes _ _ _ HA). apply (ai_small _ _ _ HA). Qed.
+
+  Lemma xmap_mapf c : c < 257 -> xmap d c = Some (mapf d c).
+  Proof.
+    intros H. unfold xmap, mapf. rewrite rdN_eq.
+    destruct (nthN_lt_Some (x_mapping d) c) as [v Hv]; [rewrite (ai_maplen _ _ _ HA); exact H|].
+    rewrite Hv. reflexivity.
+  Qed.
+
+  Lemma used_facts c : c < 256 -> used B c = true ->
+    mapf d c <> 0 /\ xunmap d (mapf d c) = Some c /\
+    (c <> 255 -> xselA d (mapf d c) = Some (NR (klt [c]) B) /\ xselA d (mapf d c + 1) = Some (NR (kle [c]) B)).
+  Proof.
+    intros Hc Hu. pose proof (ai_sym _ _ _ HA c Hc) as H. unfold chk_sym in H. rewrite Hu in H.
+    apply andb_prop in H as [H H3]. apply andb_prop in H as [H1 H2].
+    split; [destruct (N.eqb_spec (mapf d c) 0); [discriminate|assumption]|]. split.
+    - destruct (xunmap d (mapf d c)) as [c'|]; [|discriminate]. apply N.eqb_eq in H2. now subst.
+    - intros Hn. apply orb_prop in H3 as [H3|H3]; [apply N.eqb_eq in H3; contradiction|].
+      destruct (xselA d (mapf d c)) as [a|]; [|discriminate].
+      destruct (xselA d (mapf d c + 1)) as [b|]; [|discriminate].
+      apply andb_prop in H3 as [E1 E2]. apply N.eqb_eq in E1, E2. subst. auto.
+  Qed.
+
+  Lemma unused_mapf c : c < 256 -> used B c = false -> mapf d c = 0.
+  Proof.
+    intros Hc Hu. pose proof (ai_sym _ _ _ HA c Hc) as H. unfold chk_sym in H. rewrite Hu in H.
+    apply N.eqb_eq. exact H.
+  Qed.
+
+  Lemma label_used c : In c (labels_of B) -> used B c = true /\ c < 256.
+  Proof.
+    intros H. split.
+    - unfold used. apply orb_true_intro. right. apply existsb_In. exact H.
+    - unfold labels_of in H. apply in_flat_map in H as (b & Hb & Hc).
+      pose proof (B_label_bound S B HB b c Hb Hc). lia.
+  Qed.
+
+  Lemma mapf_inj c1 c2 : c1 < 256 -> c2 < 256 -> used B c1 = true -> used B c2 = true ->
+    mapf d c1 = mapf d c2 -> c1 = c2.
+  Proof.
+    intros H1 H2 U1 U2 E. destruct (used_facts c1 H1 U1) as (_ & E1 & _).
+    destruct (used_facts c2 H2 U2) as (_ & E2 & _). rewrite E in E1. congruence.
+  Qed.
+
+  Lemma alpha_bits c : c < 256 -> used B c = true -> seq_bits (mapf d c) (x_alpha d) = seq_bits c (labels_of B).
+  Proof.
+    intros Hc Hu. rewrite (ai_alpha _ _ _ HA). unfold seq_bits. rewrite map_map. apply map_ext_in.
+    intros x Hx. destruct (label_used x Hx) as [Ux Hx'].
+    destruct (N.eqb_spec c x) as [->|Hne]; [apply N.eqb_refl|].
+    apply N.eqb_neq. intros E. apply Hne. eapply mapf_inj; eauto.
+  Qed.
+
+  Lemma alpha_rank_eq c i : c < 256 -> used B c = true -> i < lenN (labels_of B) ->
+    alpha_rank d (mapf d c) i = Some (seq_rank c (labels_of B) i).
+  Proof.
+    intros Hc Hu Hi. unfold alpha_rank. rewrite alpha_len. replace (i <? lenN (labels_of B)) with true by lia.
+    unfold seq_rank. rewrite alpha_bits by assumption. reflexivity.
+  Qed.
+
+  Lemma alpha_access_eq i c : nthN (labels_of B) i = Some c -> alpha_access d i = Some (mapf d c).
+  Proof.
+    intros H. unfold alpha_access. rewrite rdN_eq, (ai_alpha _ _ _ HA). unfold nthN in *.
+    rewrite nth_error_map, H. reflexivity.
+  Qed.
+
+  Lemma NB_small P : NB P B < W32.
+  Proof.
+    pose proof (NB_le P B). pose proof (neb_len B (B_neb S B HB)). pose proof nodes_small. lia.
+  Qed.
+  Lemma NR_small P : NR P B + 1 < W32.
+  Proof. pose proof (NR_le_total P B). pose proof nodes_small. lia. Qed.
+
+  (* select on [last] at the lifted cut *)
+  Lemma sel_lift c P P' : 1 <= c <= 254 -> dclosed P' -> (forall k, P' k = lift c P k) ->
+    sel1m (x_last d) (NB (klt [c]) B + lenN (filter (has c) (bsel P B))) = NR P' B - 1 /\ 1 <= NR P' B /\
+    NB (klt [c]) B + lenN (filter (has c) (bsel P B)) = NB P' B.
+  Proof.
+    intros Hc D E. rewrite <- (NB_lift S B HB c P Hc).
+    assert (EN : NB (lift c P) B = NB P' B).
+    { unfold NB. f_equal. apply (bsel_ext B). intros k. symmetry. apply E. }
+    rewrite EN.
+    assert (H1 : 1 <= NB P' B).
+    { rewrite <- EN, (NB_lift S B HB c P Hc). destruct (head_klt S B HB c) as [B' E']; [lia|].
+      unfold NB at 1. rewrite E', lenN_cons. lia. }
+    destruct (sel_last_P S B HB P' D H1) as [Hs Hr]. unfold sel1m. rewrite (ai_last _ _ _ HA), Hs. auto.
+  Qed.
+
+  Lemma sps_step c w rest l r : 1 <= c <= 254 -> In c (labels_of B) ->
+    l = NR (klt w) B -> r + 1 = NR (kle w) B -> l <= r ->
+    sps_loop d (c :: rest) l r = sps_loop d rest (NR (klt (c :: w)) B) (NR (kle (c :: w)) B - 1)
+    /\ 1 <= NR (kle (c :: w)) B.
+  Proof.
+    intros Hc Hin El Er Hlr. destruct (label_used c Hin) as [Hu Hc'].
+    destruct (used_facts c Hc' Hu) as (Hm & _ & Hsel). destruct (Hsel ltac:(lia)) as [Hy _].
+    pose proof (NR_le_total (kle w) B) as Hle. pose proof nodes_small as Hsm.
+    cbn [sps_loop]. replace (l <=? r) with true by lia.
+    rewrite xmap_mapf by lia. replace (mapf d c =? 0) with false by lia. rewrite Hy.
+    destruct (head_klt S B HB c) as [B' EB']; [lia|].
+    assert (Hy2 : 2 <= NR (klt [c]) B).
+    { unfold NR. rewrite EB'. change (labels_of (([0], [0; 0]) :: B')) with ([0; 0] ++ labels_of B').
+      rewrite lenN_app. unfold lenN at 1. cbn [length]. lia. }
+    pose proof (NR_small (klt [c])) as Hys.
+    rewrite subu32_1 by lia. unfold last_rank1. rewrite last_len.
+    pose proof (NR_le_total (klt [c]) B) as Hyt.
+    replace (NR (klt [c]) B - 1 <? lenN (labels_of B)) with true by lia.
+    rewrite (ai_last _ _ _ HA), (rank_last_P S B HB _ (klt_dclosed [c])) by lia.
+    (* k1 *)
+    assert (K1 : (if l =? 0 then Some 0 else alpha_rank d (mapf d c) (l - 1))
+                 = Some (lenN (filter (has c) (bsel (klt w) B)))).
+    { destruct (N.eqb_spec l 0) as [E0|E0].
+      - rewrite (NR_0 (klt w) B (B_neb S B HB)) by lia. reflexivity.
+      - rewrite alpha_rank_eq by (try assumption; lia). f_equal. rewrite El.
+        apply (count_P S B HB); [apply klt_dclosed|lia|lia]. }
+    rewrite K1.
+    assert (K2 : alpha_rank d (mapf d c) r = Some (lenN (filter (has c) (bsel (kle w) B)))).
+    { rewrite alpha_rank_eq by (try assumption; lia). f_equal. replace r with (NR (kle w) B - 1) by lia.
+      apply (count_P S B HB); [apply kle_dclosed|lia|lia]. }
+    rewrite K2.
+    destruct (sel_lift c (klt w) (klt (c :: w)) Hc (klt_dclosed _) (klt_lift c w)) as (S1 & R1 & N1).
+    destruct (sel_lift c (kle w) (kle (c :: w)) Hc (kle_dclosed _) (kle_lift c w)) as (S2 & R2 & N2).
+    pose proof (NB_small (klt [c])). pose proof (NB_small (klt (c :: w))). pose proof (NB_small (kle (c :: w))).
+    pose proof (NR_small (klt (c :: w))). pose proof (NR_small (kle (c :: w))).
+    rewrite (u32_small (NB (klt [c]) B)) by lia.
+    rewrite (u32_small (lenN (filter (has c) (bsel (klt w) B)))) by lia.
+    rewrite (u32_small (lenN (filter (has c) (bsel (kle w) B)))) by lia.
+    rewrite (ai_last _ _ _ HA) in S1, S2.
+    rewrite (u32_small (NB (klt [c]) B + lenN (filter (has c) (bsel (klt w) B)))) by lia.
+    rewrite (u32_small (NB (klt [c]) B + lenN (filter (has c) (bsel (kle w) B)))) by lia.
+    rewrite S1, S2. rewrite !u32_small by lia.
+    replace (NR (klt (c :: w)) B - 1 + 1) with (NR (klt (c :: w)) B) by lia. auto.
+  Qed.
+
+  Definition Res (w : list N) (l r : N) : Prop :=
+    if l <=? r then l = NR (klt w) B /\ r + 1 = NR (kle w) B else Emp B w.
+
+  Lemma Res_intro w : 1 <= NR (kle w) B -> Res w (NR (klt w) B) (NR (kle w) B - 1).
+  Proof.
+    intros H. unfold Res. pose proof (NR_lt_le B w).
+    destruct (N.leb_spec (NR (klt w) B) (NR (kle w) B - 1)); [split; lia|].
+    apply (Emp_of_eq S B HB). lia.
+  Qed.
+
+  Definition qchar (c : N) : Prop := 1 <= c <= 254.
+
+  Lemma sps_loop_spec rest : forall w l r, Forall qchar rest -> Res w l r ->
+    exists l' r', sps_loop d rest l r = Some (l', r') /\ Res (rev rest ++ w) l' r'.
+  Proof.
+    induction rest as [|c rest IH]; intros w l r Hq HR.
+    - exists l, r. split; [reflexivity|exact HR].
+    - inversion Hq as [|? ? Hc Hq']; subst. unfold Res in HR. destruct (N.leb_spec l r) as [Hlr|Hlr].
+      + destruct HR as [El Er].
+        destruct (in_dec N.eq_dec c (labels_of B)) as [Hin|Hnin].
+        * destruct (sps_step c w rest l r Hc Hin El Er Hlr) as [E H1]. rewrite E.
+          cbn [rev]. rewrite <- app_assoc. cbn [app]. apply IH; [exact Hq'|]. apply Res_intro. exact H1.
+        * exists 1, 0. split.
+          -- cbn [sps_loop]. replace (l <=? r) with true by lia. unfold qchar in Hc. rewrite xmap_mapf by lia.
+             rewrite unused_mapf; [reflexivity|lia|].
+             unfold used. replace (c =? 0) with false by lia. cbn [orb].
+             destruct (existsb (N.eqb c) (labels_of B)) eqn:E; [|reflexivity].
+             apply existsb_In in E. contradiction.
+          -- unfold Res. cbn [N.leb N.compare]. cbn [rev]. rewrite <- app_assoc. cbn [app].
+             apply (Emp_ext S B HB); [exact Hq'|]. apply (Emp_unused S B HB); assumption.
+      + exists l, r. split.
+        * cbn [sps_loop]. replace (l <=? r) with false by lia. reflexivity.
+        * unfold Res. replace (l <=? r) with false by lia. apply (Emp_ext S B HB); assumption.
+  Qed.
+
+  (* first symbol: 0 (the root label, as locate / locatePrefix prepend it) or a query byte *)
+  Theorem xbw_subPathSearch_spec c0 c1 rest : c0 = 0 \/ qchar c0 -> Forall qchar (c1 :: rest) ->
+    exists l r, xbw_subPathSearch d (c0 :: c1 :: rest) = Some (l, r) /\ Res (rev (c0 :: c1 :: rest)) l r.
+  Proof.
+    intros H0 Hq. cbn [xbw_subPathSearch].
+    assert (Hc0 : c0 < 256) by (unfold qchar in H0; lia).
+    rewrite xmap_mapf by lia.
+    destruct (used B c0) eqn:Hu.
+    - destruct (used_facts c0 Hc0 Hu) as (Hm & _ & Hsel). destruct (Hsel ltac:(unfold qchar in H0; lia)) as [Hl Hr].
+      replace (mapf d c0 =? 0) with false by lia. rewrite Hl, Hr.
+      assert (H1 : 1 <= NR (kle [c0]) B).
+      { destruct (B_shape S B HB) as (l1 & B2 & E).
+        pose proof (NR_ge_blk (kle [c0]) B ([0], [0; 0])) as H. cbn [fst snd] in H.
+        unfold lenN at 1 in H. cbn [length] in H.
+        assert (kle [c0] [0] = true).
+        { destruct H0 as [->|H0]; [reflexivity|]. unfold kle, lex_ltb. cbn [lex_compare]. unfold qchar in H0.
+          destruct (N.compare_spec 0 c0); try lia; reflexivity. }
+        specialize (H ltac:(rewrite E; left; reflexivity) H1). lia. }
+      pose proof (NR_small (kle [c0])). rewrite subu32_1 by lia.
+      replace (rev (c0 :: c1 :: rest)) with (rev (c1 :: rest) ++ [c0]) by reflexivity.
+      apply sps_loop_spec; [exact Hq|]. apply Res_intro. exact H1.
+    - destruct H0 as [->|H0]; [discriminate|].
+      rewrite unused_mapf by assumption. cbn [N.eqb]. exists 1, 0. split; [reflexivity|].
+      unfold Res. cbn [N.leb N.compare].
+      replace (rev (c0 :: c1 :: rest)) with (rev (c1 :: rest) ++ [c0]) by reflexivity.
+      apply (Emp_ext S B HB); [exact Hq|]. apply (Emp_unused S B HB); [exact H0|].
+      intros Hin. apply label_used in Hin. destruct Hin as [Hin _]. congruence.
+  Qed.
+End Arrays.
+
+(* ================================================================== *)
+(* 6. keys, the ID order, locate                                        *)
+(* ================================================================== *)
+Definition vbyte (x : N) : Prop := 2 <= x <= 254.
+
+Lemma removelast_snoc {T} (l : list T) x : removelast (l ++ [x]) = l.
+Proof. rewrite removelast_app by discriminate. cbn. apply app_nil_r. Qed.
+
+Lemma unkey_app r : unkey (r ++ [0; 0]) = rev r.
+Proof.
+  unfold unkey. replace (r ++ [0; 0]) with ((r ++ [0]) ++ [0]) by (rewrite <- app_assoc; reflexivity).
+  rewrite !removelast_snoc. reflexivity.
+Qed.
+
+Lemma unkey_mkkey q : unkey (mkkey q) = q.
+Proof. unfold mkkey. rewrite unkey_app. apply rev_involutive. Qed.
+
+Lemma key_ok_form k : key_ok k = true -> exists r, k = r ++ [0; 0] /\ Forall vbyte r.
+Proof.
+  unfold key_ok. destruct (rev k) as [|a [|b r]] eqn:E; try discriminate; [destruct a; discriminate|].
+  destruct a; [|discriminate]. destruct b; [|discriminate]. intros H.
+  exists (rev r). split.
+  - rewrite <- (rev_involutive k), E. cbn [rev]. rewrite <- app_assoc. reflexivity.
+  - rewrite forallb_forall in H. apply Forall_forall. intros x Hx. apply in_rev in Hx.
+    specialize (H x Hx). unfold vbyte. lia.
+Qed.
+
+Lemma key_prefix u : forall r, Forall (fun c => 1 <= c) u -> Forall vbyte r ->
+  is_prefix (u ++ [0]) (r ++ [0; 0]) = true -> r = u.
+Proof.
+  induction u as [|a u IH]; intros r Hu Hr H.
+  - destruct r as [|x r]; [reflexivity|]. cbn [app is_prefix] in H. inversion Hr; subst. unfold vbyte in *.
+    apply andb_prop in H as [H _]. lia.
+  - inversion Hu; subst. destruct r as [|x r].
+    + cbn [app is_prefix] in H. apply andb_prop in H as [H _]. lia.
+    + cbn [app is_prefix] in H. apply andb_prop in H as [E H]. apply N.eqb_eq in E. subst x.
+      inversion Hr; subst. f_equal. apply IH; assumption.
+Qed.
+
+Lemma key_inj (B : list blk) b1 b2 : SS (map fst B) -> In b1 B -> In b2 B -> fst b1 = fst b2 -> b1 = b2.
+Proof.
+  induction B as [|b B IH]; intros H H1 H2 E; [destruct H1|].
+  cbn [map] in H. apply StronglySorted_inv in H as [H F]. rewrite Forall_forall in F.
+  destruct H1 as [<-|H1], H2 as [<-|H2]; [reflexivity| | |auto].
+  - exfalso. apply (lex_lt_irrefl (fst b)). rewrite E at 2. apply F. apply in_map. exact H2.
+  - exfalso. apply (lex_lt_irrefl (fst b)). rewrite <- E at 2. apply F. apply in_map. exact H1.
+Qed.
+
+Lemma NoDup_map_in {T U} (f : T -> U) l : (forall x y, In x l -> In y l -> f x = f y -> x = y) ->
+  NoDup l -> NoDup (map f l).
+Proof.
+  induction l as [|a l IH]; intros Hi Hn; [constructor|]. inversion Hn; subst. cbn [map]. constructor.
+  - intros Hin. apply in_map_iff in Hin as (y & E & Hy).
+    assert (y = a) by (apply Hi; [right; exact Hy|left; reflexivity|exact E]). subst. contradiction.
+  - apply IH; [|assumption]. intros x y Hx Hy. apply Hi; right; assumption.
+Qed.
+
+Lemma asc_snoc_lt Y : forall c y, asc_b (Y ++ [c]) = true -> In y Y -> y < c.
+Proof.
+  induction Y as [|x Y IH]; intros c y H Hy; [destruct Hy|].
+  destruct Hy as [<-|Hy].
+  - apply (asc_gt x (Y ++ [c]) H). apply in_or_app. right. left. reflexivity.
+  - apply IH; [|exact Hy]. eapply asc_tail. exact H.
+Qed.
+
+Section Order.
+  Variables (S : list str) (B : list blk).
+  Hypothesis HB : binv S B.
+
+  Lemma key_form b : In b (tl B) -> exists r, fst b = r ++ [0; 0] /\ Forall vbyte r.
+  Proof. intros H. apply key_ok_form. apply (bi_blk _ _ HB). exact H. Qed.
+
+  Lemma has255_tl b : In b B -> has 255 b = true -> In b (tl B).
+  Proof.
+    intros Hb H. destruct (B_in_cases S B HB b Hb) as [->|]; [|assumption]. discriminate.
+  Qed.
+
+  Lemma order_In s : In s (xbw_order_of B) <-> In s S.
+  Proof.
+    unfold xbw_order_of. rewrite in_map_iff. split.
+    - intros (b & <- & Hb). apply filter_In in Hb as [Hb H]. apply (bi_leaf _ _ HB).
+      + apply has255_tl; assumption.
+      + apply has_In. exact H.
+    - intros Hs. destruct (bi_mem _ _ HB s Hs) as (b & Hb & E & H). exists b. split.
+      + rewrite E. apply unkey_mkkey.
+      + apply filter_In. split; [exact Hb|]. apply has_In. exact H.
+  Qed.
+
+  Lemma B_NoDup : NoDup B.
+  Proof. apply (NoDup_map_inv fst). apply SS_NoDup. apply (bi_sorted _ _ HB). Qed.
+
+  Lemma order_NoDup : NoDup (xbw_order_of B).
+  Proof.
+    unfold xbw_order_of. apply NoDup_map_in; [|apply NoDup_filter, B_NoDup].
+    intros x y Hx Hy E. apply filter_In in Hx as [Hx Hx2]. apply filter_In in Hy as [Hy Hy2].
+    apply (key_inj B); auto; [apply (bi_sorted _ _ HB)|].
+    destruct (key_form x (has255_tl x Hx Hx2)) as (rx & Ex & _).
+    destruct (key_form y (has255_tl y Hy Hy2)) as (ry & Ey & _).
+    rewrite Ex, Ey in *. rewrite !unkey_app in E. apply (f_equal (@rev N)) in E.
+    rewrite !rev_involutive in E. now subst.
+  Qed.
+
+  (* the ID numbering is a permutation of S ... *)
+  Theorem xbw_order_perm : NoDup S -> Permutation S (xbw_order_of B).
+  Proof.
+    intros H. apply NoDup_Permutation; [exact H|apply order_NoDup|]. intros s. symmetry. apply order_In.
+  Qed.
+
+  (* ... namely S sorted by the upward paths of the terminator leaves (= by the REVERSED strings) *)
+  Theorem xbw_order_sorted : StronglySorted (fun a b => lex_lt (mkkey a) (mkkey b)) (xbw_order_of B).
+  Proof.
+    unfold xbw_order_of.
+    assert (H : SS (map fst (filter (has 255) B))) by (apply SS_map_filter, (bi_sorted _ _ HB)).
+    assert (F : forall b, In b (filter (has 255) B) -> mkkey (unkey (fst b)) = fst b).
+    { intros b Hb. apply filter_In in Hb as [Hb H2]. destruct (key_form b (has255_tl b Hb H2)) as (r & E & _).
+      rewrite E, unkey_app. unfold mkkey. now rewrite rev_involutive. }
+    induction (filter (has 255) B) as [|b L IH]; [constructor|].
+    cbn [map] in *. apply StronglySorted_inv in H as [H1 H2]. constructor.
+    - apply IH; [exact H1|]. intros x Hx. apply F. right; exact Hx.
+    - rewrite Forall_forall in *. intros x Hx. apply in_map_iff in Hx as (y & <- & Hy).
+      rewrite (F b (or_introl eq_refl)), (F y (or_intror Hy)). apply H2. apply in_map. exact Hy.
+  Qed.
+End Order.
+
+Lemma labels_rows B : labels_of B = map snd (rows_of B).
+Proof.
+  induction B as [|b B IH]; [reflexivity|].
+  change (labels_of (b :: B)) with (snd b ++ labels_of B).
+  change (rows_of (b :: B)) with (blk_rows b ++ rows_of B). rewrite map_app, IH. f_equal.
+  unfold blk_rows. rewrite map_map. cbn [snd]. symmetry. apply map_id.
+Qed.
+
+Lemma nthN_mid {T} (l1 : list T) x l2 : nthN (l1 ++ x :: l2) (lenN l1) = Some x.
+Proof. rewrite nthN_app_r by lia. rewrite N.sub_diag. reflexivity. Qed.
+
+Lemma nthN_labels B i k c : nthN (rows_of B) i = Some (k, c) -> nthN (labels_of B) i = Some c.
+Proof. intros H. rewrite labels_rows. unfold nthN in *. rewrite nth_error_map, H. reflexivity. Qed.
+
+Lemma qchar_rev_pos q : Forall qchar q -> Forall (fun c => 1 <= c) (rev q).
+Proof.
+  intros H. apply Forall_forall. intros x Hx. apply in_rev in Hx. rewrite Forall_forall in H.
+  specialize (H x Hx). unfold qchar in H. lia.
+Qed.
+
+Section Locate.
+  Variables (S : list str) (B : list blk) (d : xbw).
+  Hypothesis HB : binv S B.
+  Hypothesis HA : ainv S B d.
+  Hypothesis HS : S <> [].
+
+  Lemma used_255 : In 255 (labels_of B).
+  Proof.
+    destruct S as [|s S']; [congruence|]. destruct (bi_mem _ _ HB s (or_introl eq_refl)) as (b & Hb & _ & H).
+    unfold labels_of. apply in_flat_map. eauto.
+  Qed.
+
+  Lemma head_not_prefix q : q <> [] -> Forall qchar q -> is_prefix (rev q ++ [0]) [0] = false.
+  Proof.
+    intros Hq Hc. destruct (rev q) as [|a u] eqn:E.
+    - apply (f_equal (@rev N)) in E. rewrite rev_involutive in E. cbn in E. congruence.
+    - pose proof (qchar_rev_pos q Hc) as H. rewrite E in H. inversion H; subst.
+      cbn [app is_prefix]. replace (a =? 0) with false by lia. reflexivity.
+  Qed.
+
+  (* a block whose key extends rev q ++ [0] is the child block of the node with path q *)
+  Lemma prefix_key q b : q <> [] -> Forall qchar q -> In b B -> is_prefix (rev q ++ [0]) (fst b) = true ->
+    In b (tl B) /\ fst b = mkkey q.
+  Proof.
+    intros Hq Hc Hb Hp. destruct (B_in_cases S B HB b Hb) as [->|Ht].
+    - cbn [fst] in Hp. rewrite head_not_prefix in Hp by assumption. discriminate.
+    - split; [exact Ht|]. destruct (key_form S B HB b Ht) as (r & E & Hr). rewrite E in *.
+      unfold mkkey. f_equal. apply key_prefix; [apply qchar_rev_pos; exact Hc|exact Hr|exact Hp].
+  Qed.
+
+  (* the last row of a non-empty search range *)
+  Lemma range_last q l r : q <> [] -> Forall qchar q ->
+    l = NR (klt (rev q ++ [0])) B -> r + 1 = NR (kle (rev q ++ [0])) B -> l <= r ->
+    exists X bq Y c R2, B = (X ++ [bq]) ++ R2 /\ bsel (kle (rev q ++ [0])) B = X ++ [bq] /\ snd bq = Y ++ [c] /\
+      fst bq = mkkey q /\ In bq (tl B) /\ nthN (rows_of B) r = Some (mkkey q, c).
+  Proof.
+    intros Hq Hc El Er Hlr. set (w := rev q ++ [0]) in *.
+    pose proof (split_P S B HB (kle w) (kle_dclosed w)) as Esp.
+    assert (Hnn : bsel (kle w) B <> []).
+    { intros E. unfold NR in Er. rewrite E in Er. cbn in Er. lia. }
+    destruct (exists_last Hnn) as (X & bq & EK).
+    assert (Hbq : In bq B).
+    { assert (In bq (bsel (kle w) B)) by (rewrite EK; apply in_or_app; right; left; reflexivity).
+      apply filter_In in H. tauto. }
+    assert (Hne : snd bq <> []) by (apply (B_neb S B HB); exact Hbq).
+    destruct (exists_last Hne) as (Y & c & EY).
+    assert (Hrow : nthN (rows_of B) r = Some (fst bq, c)).
+    { rewrite EK in Esp. rewrite Esp, rows_app, rows_app. change (rows_of [bq]) with (blk_rows bq ++ []). rewrite app_nil_r.
+      unfold blk_rows. rewrite EY, map_app. cbn [map].
+      rewrite <- !app_assoc. rewrite (app_assoc (rows_of X)). cbn [app].
+      replace r with (lenN (rows_of X ++ map (fun c0 => (fst bq, c0)) Y)); [apply nthN_mid|].
+      unfold NR in Er. rewrite EK, labels_app in Er. change (labels_of [bq]) with (snd bq ++ []) in Er.
+      rewrite app_nil_r, EY, !lenN_app in Er. rewrite lenN_app, rows_len, lenN_map.
+      unfold lenN in Er at 3. cbn [length] in Er. lia. }
+    assert (Hp : is_prefix w (fst bq) = true).
+    { apply (row_range S B HB w r (fst bq) c Hrow). lia. }
+    destruct (prefix_key q bq Hq Hc Hbq Hp) as [Ht Ek].
+    exists X, bq, Y, c, (bsel (fun k => negb (kle w k)) B). rewrite <- Ek. rewrite EK in Esp. repeat split; auto.
+  Qed.
+
+  Theorem xbw_locate_spec q : q <> [] -> Forall qchar q ->
+    xbw_locate d q = Some (spec_locate (xbw_order_of B) q).
+  Proof.
+    intros Hq Hc. unfold xbw_locate.
+    destruct q as [|c1 rest] eqn:Eq0; [congruence|]. rewrite <- Eq0 in *. clear Hq. assert (Hq : q <> []) by (subst; discriminate).
+    destruct (xbw_subPathSearch_spec S B d HB HA 0 c1 rest (or_introl eq_refl)) as (l & r & Esp & HR).
+    { rewrite <- Eq0. exact Hc. }
+    rewrite <- Eq0 in Esp, HR. rewrite Esp.
+    replace (rev (0 :: q)) with (rev q ++ [0]) in HR by reflexivity.
+    unfold Res in HR. destruct (N.leb_spec l r) as [Hlr|Hlr].
+    - destruct HR as [El Er]. replace (r <? l) with false by lia.
+      destruct (range_last q l r Hq Hc El Er Hlr) as (X & bq & Y & c & R2 & EB & EK & EY & Ek & Ht & Hrow).
+      rewrite (alpha_access_eq S B d HA r c (nthN_labels B r _ c Hrow)).
+      rewrite (ai_max _ _ _ HA).
+      assert (Hbq : In bq B) by (destruct (B_shape S B HB) as (l1 & B2 & E); rewrite E in Ht |- *; right; exact Ht).
+      destruct (bi_blk _ _ HB bq Ht) as (_ & _ & Hasc & Hrng).
+      pose proof used_255 as H255. destruct (label_used S B HB 255 H255) as [U255 _].
+      assert (Hcl : In c (labels_of B)).
+      { unfold labels_of. apply in_flat_map. exists bq. split; [exact Hbq|]. rewrite EY. apply in_or_app. right. left. reflexivity. }
+      destruct (label_used S B HB c Hcl) as [Uc Hc256].
+      destruct (N.eqb_spec (mapf d c) (mapf d 255)) as [Em|Em].
+      + assert (c = 255) by (eapply (mapf_inj S B d HA); eauto; lia). subst c.
+        (* member: ID = number of terminator leaves up to row r *)
+        assert (Hin : In q S).
+        { rewrite <- (unkey_mkkey q), <- Ek. apply (bi_leaf _ _ HB); [exact Ht|]. rewrite EY. apply in_or_app. right. left. reflexivity. }
+        rewrite (alpha_rank_eq S B d HB HA 255) by (try assumption; try lia;
+          pose proof (NR_le_total (kle (rev q ++ [0])) B); lia).
+        f_equal. replace r with (NR (kle (rev q ++ [0])) B - 1) by lia.
+        rewrite (count_P S B HB 255 _ (kle_dclosed _)) by lia.
+        rewrite EK. unfold bsel. rewrite filter_app. cbn [filter].
+        assert (H1 : has 255 bq = true) by (apply has_In; rewrite EY; apply in_or_app; right; left; reflexivity).
+        rewrite H1.
+        (* position of q in the order *)
+        unfold spec_locate.
+        assert (Hnth : nthN (xbw_order_of B) (lenN (filter (has 255) X)) = Some q).
+        { unfold xbw_order_of. rewrite EB. rewrite !filter_app. cbn [filter]. rewrite H1.
+          rewrite !map_app. cbn [map]. rewrite <- app_assoc. cbn [app].
+          rewrite <- (lenN_map (fun b : blk => unkey (fst b)) (filter (has 255) X)).
+          rewrite nthN_mid. rewrite Ek, unkey_mkkey. reflexivity. }
+        rewrite (nth_index_from _ 1 _ q (N.le_refl 1) (order_NoDup S B HB) Hnth).
+        rewrite lenN_app. unfold lenN at 2. cbn [length]. lia.
+      + (* the last child is not the terminator: q is not a member *)
+        symmetry. f_equal. apply spec_locate_absent. intros Hin. apply (order_In S B HB) in Hin.
+        destruct (bi_mem _ _ HB q Hin) as (b & Hb & Ekb & H255b).
+        assert (b = bq) by (apply (key_inj B); auto; [apply (bi_sorted _ _ HB)|congruence]). subst b.
+        rewrite EY in H255b. apply in_app_or in H255b as [HinY|[E|[]]]; [|subst; congruence].
+        rewrite EY in Hasc. pose proof (asc_snoc_lt Y c 255 Hasc HinY).
+        specialize (Hrng c ltac:(rewrite EY; apply in_or_app; right; left; reflexivity)). lia.
+    - replace (r <? l) with true by lia. symmetry. f_equal. apply spec_locate_absent. intros Hin.
+      apply (order_In S B HB) in Hin. destruct (bi_mem _ _ HB q Hin) as (b & Hb & Ekb & _).
+      unfold Emp in HR.
+      assert (Hk : kle (rev q ++ [0]) (fst b) = true).
+      { unfold kle. apply orb_true_intro. right. rewrite Ekb. unfold mkkey.
+        replace (rev q ++ [0; 0]) with ((rev q ++ [0]) ++ [0]) by (rewrite <- app_assoc; reflexivity).
+        apply is_prefix_app. eauto. }
+      assert (In b (bsel (kle (rev q ++ [0])) B)) by (apply filter_In; auto).
+      rewrite <- HR in H. apply filter_In in H as [_ H]. unfold klt in H.
+      rewrite prefix_not_lt in H; [discriminate|].
+      rewrite Ekb. unfold mkkey.
+      replace (rev q ++ [0; 0]) with ((rev q ++ [0]) ++ [0]) by (rewrite <- app_assoc; reflexivity).
+      apply is_prefix_app. eauto.
+  Qed.
+End Locate.
+
+(* ================================================================== *)
+(* 7. getParent, idToStr, extract                                       *)
+(* ================================================================== *)
+Lemma select_at c L1 L2 j : seq_count c L1 = j -> seq_select c (L1 ++ c :: L2) (j + 1) = Some (lenN L1).
+Proof.
+  intros H. unfold seq_select, bv_select1. rewrite seq_bits_app. rewrite selb_app by lia.
+  unfold seq_count, bv_ones in H. rewrite H. replace (j <? j + 1) with true by lia.
+  replace (j + 1 - j) with 1 by lia. unfold seq_bits at 2. cbn [map selb]. rewrite N.eqb_refl.
+  cbn [Bool.eqb N.eqb Pos.eqb option_map]. f_equal. unfold seq_bits. rewrite lenN_map. lia.
+Qed.
+
+Lemma row_decomp B : forall n k c, nthN (rows_of B) n = Some (k, c) ->
+  exists B1 b B2 t, B = B1 ++ b :: B2 /\ n = lenN (labels_of B1) + t /\ t < lenN (snd b) /\ fst b = k /\
+    nthN (snd b) t = Some c.
+Proof.
+  induction B as [|b B IH]; intros n k c H.
+  - unfold nthN in H. destruct (N.to_nat n); discriminate.
+  - change (rows_of (b :: B)) with (blk_rows b ++ rows_of B) in H.
+    destruct (N.ltb_spec n (lenN (blk_rows b))) as [Hlt|Hge].
+    + rewrite nthN_app_l in H by exact Hlt. unfold blk_rows in *. rewrite lenN_map in Hlt.
+      unfold nthN in H. rewrite nth_error_map in H.
+      destruct (nth_error (snd b) (N.to_nat n)) as [c'|] eqn:E; [|discriminate]. injection H as <- <-.
+      exists [], b, B, n. repeat split; auto.
+    + rewrite nthN_app_r in H by exact Hge. destruct (IH _ _ _ H) as (B1 & b' & B2 & t & E1 & E2 & E3 & E4 & E5).
+      exists (b :: B1), b', B2, t. subst B. repeat split; auto.
+      change (labels_of (b :: B1)) with (snd b ++ labels_of B1). rewrite lenN_app.
+      unfold blk_rows in *. rewrite lenN_map in *. lia.
+Qed.
+
+Lemma row_compose B1 b B2 l1 c l2 : snd b = l1 ++ c :: l2 ->
+  nthN (rows_of (B1 ++ b :: B2)) (lenN (labels_of B1) + lenN l1) = Some (fst b, c).
+Proof.
+  intros E. rewrite rows_app. change (rows_of (b :: B2)) with (blk_rows b ++ rows_of B2).
+  rewrite nthN_app_r by (rewrite rows_len; lia). rewrite rows_len.
+  replace (lenN (labels_of B1) + lenN l1 - lenN (labels_of B1)) with (lenN l1) by lia.
+  unfold blk_rows. rewrite E, map_app. cbn [map]. rewrite <- app_assoc. cbn [app].
+  rewrite <- (lenN_map (fun c0 => (fst b, c0)) l1). apply nthN_mid.
+Qed.
+
+Lemma SS_mid (B1 : list blk) b B2 : SS (map fst (B1 ++ b :: B2)) ->
+  (forall x, In x B1 -> lex_lt (fst x) (fst b)) /\ (forall x, In x B2 -> lex_lt (fst b) (fst x)).
+Proof.
+  induction B1 as [|a B1 IH]; intros H; cbn [app map] in H; apply StronglySorted_inv in H as [H F].
+  - split; [intros x []|]. rewrite Forall_forall in F. intros x Hx. apply F. apply in_map. exact Hx.
+  - destruct (IH H) as [I1 I2]. split; [|exact I2]. intros x [<-|Hx]; [|auto].
+    rewrite Forall_forall in F. apply F. apply in_map. apply in_or_app. right. left. reflexivity.
+Qed.
+
+Section Parent.
+  Variables (S : list str) (B : list blk) (d : xbw).
+  Hypothesis HB : binv S B.
+  Hypothesis HA : ainv S B d.
+
+  Lemma row0 : nthN (rows_of B) 0 = Some ([0], 0) /\ nthN (rows_of B) 1 = Some ([0], 0).
+  Proof. destruct (B_shape S B HB) as (l1 & B2 & E). rewrite E. split; reflexivity. Qed.
+
+  Lemma NR_klt0 : NR (klt [0]) B = 0.
+  Proof.
+    unfold NR. assert (E : bsel (klt [0]) B = []).
+    { apply filter_none. intros x Hx. destruct (B_in_cases S B HB x Hx) as [->|Ht]; [reflexivity|].
+      destruct (key_form S B HB x Ht) as (r & E & Hr). rewrite E. unfold klt, lex_ltb.
+      destruct r as [|y r]; [reflexivity|]. inversion Hr; subst. unfold vbyte in *. cbn [app lex_compare].
+      destruct (N.compare_spec y 0); try lia; reflexivity. }
+    rewrite E. reflexivity.
+  Qed.
+
+  (* the parent of a row whose key is c' :: k' (c' a string byte) is the row (k', c') *)
+  Lemma getParent_spec n c' k' c : vbyte c' -> nthN (rows_of B) n = Some (c' :: k', c) ->
+    exists p, xbw_getParent d n = Some p /\ nthN (rows_of B) p = Some (k', c').
+  Proof.
+    intros Hc' Hrow. unfold vbyte in Hc'.
+    destruct (row_decomp B n _ c Hrow) as (B1 & b & B2 & t & EB & En & Ht & Ek & Hct).
+    pose proof (bi_sorted _ _ HB) as HS. rewrite EB in HS. destruct (SS_mid B1 b B2 HS) as [Hlo Hhi].
+    destruct (ai_rowsA _ _ _ HA n _ c Hrow) as (c0 & k0 & E0 & HnA & HrA). injection E0 as <- <-.
+    (* c' is a label: the block b has a parent row *)
+    assert (Hb : In b B) by (rewrite EB; apply in_or_app; right; left; reflexivity).
+    assert (Htt : In b (tl (tl B))).
+    { destruct (B_shape S B HB) as (l1 & B2' & E). rewrite E in Hb |- *. cbn [tl].
+      destruct Hb as [<-|[<-|H]]; [cbn in Ek; injection Ek; lia|cbn in Ek; injection Ek; lia|exact H]. }
+    destruct (bi_up _ _ HB b Htt) as (c1 & k1 & b' & E1 & Hb' & E2 & Hin). rewrite Ek in E1. injection E1 as <- <-.
+    assert (Hb'B : In b' B) by (destruct (B_shape S B HB) as (l1 & B2' & E); rewrite E in Hb' |- *; right; exact Hb').
+    assert (Hl : In c' (labels_of B)) by (unfold labels_of; apply in_flat_map; eauto).
+    destruct (label_used S B HB c' Hl) as [Hu Hc256].
+    destruct (used_facts S B d HA c' Hc256 Hu) as (Hm & _ & Hsel). destruct (Hsel ltac:(lia)) as [Hy _].
+    (* the head block lies in B1 *)
+    destruct (head_klt S B HB c') as [B' EB']; [lia|].
+    assert (Hy2 : 2 <= NR (klt [c']) B).
+    { pose proof (NR_ge_blk (klt [c']) B ([0], [0; 0])) as H. cbn [fst snd] in H. unfold lenN at 1 in H. cbn [length] in H.
+      apply H; [|reflexivity || (unfold klt, lex_ltb; cbn [lex_compare]; destruct (N.compare_spec 0 c'); try lia; reflexivity)].
+      assert (In ([0], [0; 0]) (bsel (klt [c']) B)) by (rewrite EB'; left; reflexivity). apply filter_In in H0. tauto. }
+    (* blocks of B1: below [c'] or in group c' *)
+    assert (Hcase : forall x, In x B1 -> klt [c'] (fst x) || grp c' x = true).
+    { intros x Hx. specialize (Hlo x Hx). rewrite Ek in Hlo. apply lex_ltb_lt in Hlo.
+      change (lex_ltb (fst x) (c' :: k')) with (klt (c' :: k') (fst x)) in Hlo. rewrite (klt_lift c' k') in Hlo.
+      unfold lift, grp in *. apply orb_prop in Hlo as [H|H]; [rewrite H; reflexivity|].
+      destruct (fst x) as [|y ky]; [discriminate|]. apply andb_prop in H as [H _]. rewrite H. apply orb_true_r. }
+    assert (Hex : forall x, In x B -> klt [c'] (fst x) = true -> grp c' x = false).
+    { intros x _ H. unfold grp, klt, lex_ltb in *. destruct (fst x) as [|y ky]; [reflexivity|].
+      cbn [lex_compare] in H. destruct (N.compare_spec y c') as [->|?|?]; try (apply N.eqb_neq; lia).
+      destruct ky; discriminate. }
+    assert (HNB : NB (klt [c']) B = lenN (filter (fun x : list N * list N => klt [c'] (fst x)) B1)).
+    { unfold NB, bsel. rewrite EB, filter_app. cbn [filter]. unfold blk in *.
+      replace (klt [c'] (fst b)) with false.
+      2:{ rewrite Ek. unfold klt, lex_ltb. cbn [lex_compare]. rewrite N.compare_refl. destruct k'; reflexivity. }
+      rewrite (filter_none (fun x : list N * list N => klt [c'] (fst x)) B2).
+      - rewrite app_nil_r. reflexivity.
+      - intros x Hx. destruct (klt [c'] (fst x)) eqn:E; [|reflexivity]. exfalso.
+        specialize (Hhi x Hx). unfold klt in E. apply lex_ltb_lt in E.
+        assert (lex_lt (fst b) [c']) by (eapply lex_lt_trans; eauto). rewrite Ek in H.
+        unfold lex_lt in H. cbn [lex_compare] in H. rewrite N.compare_refl in H. destruct k'; discriminate. }
+    assert (HlenB1 : lenN B1 = NB (klt [c']) B + lenN (filter (grp c') B1)).
+    { assert (H1 : lenN B1 = lenN (filter (fun x : list N * list N => klt [c'] (fst x) || grp c' x) B1)).
+      { rewrite filter_all; [reflexivity|exact Hcase]. }
+      rewrite H1 at 1. rewrite HNB. apply filter_or_len.
+      intros x Hx. apply Hex. rewrite EB. apply in_or_app. left. exact Hx. }
+    set (j := lenN (filter (grp c') B1)) in *.
+    (* the j-th block with a child c' is the parent block *)
+    assert (Hnth : nth_error (filter (has c') B) (N.to_nat j) = Some b').
+    { pose proof (star S B HB c' ltac:(lia)) as Hst.
+      assert (Hg : nth_error (map fst (filter (grp c') B)) (N.to_nat j) = Some (c' :: k')).
+      { rewrite EB, filter_app. cbn [filter]. replace (grp c' b) with true by (unfold grp; rewrite Ek; symmetry; apply N.eqb_refl).
+        rewrite map_app. cbn [map]. rewrite nth_error_app2 by (rewrite map_length; unfold j, lenN; lia).
+        rewrite map_length. replace (N.to_nat j - length (filter (grp c') B1))%nat with 0%nat by (unfold j, lenN; lia).
+        cbn. now rewrite Ek. }
+      rewrite <- Hst in Hg. rewrite nth_error_map in Hg.
+      match type of Hg with option_map _ ?X = _ => destruct X as [bp|] eqn:E end; cbn [option_map] in Hg; [|discriminate].
+      assert (Hg' : fst bp = k') by congruence.
+      transitivity (Some bp); [exact E|]. cut (bp = b'); [intros ->; reflexivity|].
+      apply (key_inj B); [apply (bi_sorted _ _ HB)| |exact Hb'B|congruence].
+      apply nth_error_In in E. apply filter_In in E. tauto. }
+    destruct (nth_filter_split _ _ _ _ Hnth) as (C1 & C2 & EC & HjC & Hhas).
+    apply has_In in Hhas. destruct (in_split _ _ Hhas) as (l1 & l2 & El).
+    assert (Hok : okc c' b') by (apply (B_okc S B HB); [lia|exact Hb'B]).
+    assert (Hl1 : seq_count c' l1 = 0).
+    { unfold okc in Hok. replace (has c' b') with true in Hok by (symmetry; apply has_In; exact Hhas).
+      rewrite El, seq_count_app, seq_count_cons, N.eqb_refl in Hok. lia. }
+    assert (HcntC1 : seq_count c' (labels_of C1) = j).
+    { rewrite (cnt_labels c').
+      - unfold lenN. rewrite HjC. lia.
+      - intros x Hx. apply (B_okc S B HB); [lia|]. rewrite EC. apply in_or_app. left. exact Hx. }
+    set (p := lenN (labels_of C1) + lenN l1).
+    assert (Hprow : nthN (rows_of B) p = Some (k', c')).
+    { rewrite EC at 1. unfold p. rewrite <- E2. apply (row_compose C1 b' C2 l1 c' l2 El). }
+    assert (Hpsel : seq_select c' (labels_of B) (j + 1) = Some p).
+    { rewrite EC at 1. rewrite labels_app. change (labels_of (b' :: C2)) with (snd b' ++ labels_of C2).
+      rewrite El. rewrite <- app_assoc. cbn [app]. rewrite app_assoc. unfold p. rewrite <- lenN_app.
+      apply select_at. rewrite seq_count_app. lia. }
+    exists p. split; [|exact Hprow].
+    (* the computation *)
+    pose proof (nodes_small S B d HA) as Hsm.
+    assert (Hn2 : 2 <= lenN (labels_of B1)).
+    { assert (In ([0], [0; 0]) B1).
+      { assert (Hh : In ([0], [0; 0]) B) by (destruct (B_shape S B HB) as (l1' & B2' & E); rewrite E; left; reflexivity).
+        rewrite EB in Hh. apply in_app_or in Hh as [Hh|[Hh|Hh]]; [exact Hh| |].
+        - subst b. cbn in Ek. injection Ek. lia.
+        - specialize (Hhi _ Hh). cbn [fst] in Hhi. rewrite Ek in Hhi. unfold lex_lt in Hhi. cbn [lex_compare] in Hhi.
+          destruct (N.compare_spec c' 0); try lia; discriminate. }
+      pose proof (NR_ge_blk (fun _ => true) B1 ([0], [0; 0]) H eq_refl) as H1. unfold NR, bsel in H1.
+      rewrite filter_all in H1 by reflexivity. exact H1. }
+    assert (Hntot : n < lenN (labels_of B)).
+    { rewrite <- rows_len. eapply nthN_Some_lt. exact Hrow. }
+    unfold xbw_getParent. replace (n =? 0) with false by lia.
+    unfold A_rank1. replace (n <? lenN (x_A d)) with true by lia. rewrite HrA.
+    pose proof (ai_mapsmall _ _ _ HA c'). rewrite u32_small by (unfold W32; lia). rewrite Hy.
+    replace (NR (klt [c']) B =? 0) with false by lia.
+    unfold last_rank1. rewrite (last_len S B d HA).
+    replace (n - 1 <? lenN (labels_of B)) with true by lia.
+    pose proof (NR_le_total (klt [c']) B).
+    replace (NR (klt [c']) B - 1 <? lenN (labels_of B)) with true by lia.
+    rewrite (ai_last _ _ _ HA). rewrite (rank_last_P S B HB _ (klt_dclosed [c'])) by lia.
+    assert (Hrk : bv_rank1 (lasts_of B) (n - 1) = lenN B1).
+    { unfold bv_rank1. replace (n - 1 + 1) with n by lia. rewrite EB, En.
+      apply pc_blocks; [|exact Ht]. pose proof (B_neb S B HB) as Hne. rewrite EB in Hne. apply neb_app in Hne. tauto. }
+    rewrite Hrk, HlenB1.
+    pose proof (NB_small S B d HB HA (klt [c'])).
+    assert (j <= lenN B) by (pose proof (B_neb S B HB); rewrite EB at 1; rewrite lenN_app; unfold j;
+      pose proof (NB_le (fun _ => true) B1); unfold NB, bsel in *;
+      assert (lenN (filter (grp c') B1) <= lenN B1) by (clear; induction B1 as [|a l IH]; cbn [filter]; [lia|destruct (grp c' a); rewrite ?lenN_cons; lia]); lia).
+    pose proof (neb_len B (B_neb S B HB)).
+    replace (subu32 (NB (klt [c']) B + j) (NB (klt [c']) B)) with j.
+    2:{ unfold subu32. rewrite (u32_small (NB (klt [c']) B)) by lia. unfold u32.
+        replace (NB (klt [c']) B + j + W32 - NB (klt [c']) B) with (j + 1 * W32) by lia.
+        rewrite N.mod_add by (unfold W32; lia). symmetry. apply N.mod_small. lia. }
+    unfold alpha_select, seq_select. rewrite (alpha_bits S B d HB HA c' Hc256 Hu).
+    fold (seq_select c' (labels_of B) (j + 1)). rewrite Hpsel.
+    rewrite u32_small; [reflexivity|]. apply nthN_Some_lt in Hprow. rewrite rows_len in Hprow. lia.
+  Qed.
+End Parent.
+
+Section Extract.
+  Variables (S : list str) (B : list blk) (d : xbw).
+  Hypothesis HB : binv S B.
+  Hypothesis HA : ainv S B d.
+
+  Lemma mkkey_snoc pi c : mkkey (pi ++ [c]) = c :: mkkey pi.
+  Proof. unfold mkkey. rewrite rev_unit. reflexivity. Qed.
+
+  (* a node at depth |pi| has |pi| + 2 distinct ancestors' blocks above it *)
+  Lemma depth_bound pi : forall b, In b B -> fst b = mkkey pi -> Forall vbyte pi ->
+    exists L, NoDup L /\ incl L (map fst B) /\ length L = (length pi + 2)%nat /\
+              (forall k, In k L -> (length k <= length pi + 2)%nat).
+  Proof.
+    induction pi as [|c pi IH] using rev_ind; intros b Hb Ek Hv.
+    - exists [[0]; [0; 0]]. destruct (B_shape S B HB) as (l1 & B2 & E). repeat split.
+      + constructor; [intros [H|[]]; discriminate|]. constructor; [intros []|constructor].
+      + intros k [<-|[<-|[]]]; rewrite E; cbn [map fst]; [left|right; left]; reflexivity.
+      + intros k [<-|[<-|[]]]; cbn; lia.
+    - rewrite mkkey_snoc in Ek. apply Forall_app in Hv as [Hv Hc]. inversion Hc; subst.
+      assert (Htt : In b (tl (tl B))).
+      { destruct (B_shape S B HB) as (l1 & B2' & E). rewrite E in Hb |- *. cbn [tl]. unfold vbyte in *.
+        destruct Hb as [<-|[<-|H]]; [cbn in Ek; injection Ek; lia|cbn in Ek; injection Ek; lia|exact H]. }
+      destruct (bi_up _ _ HB b Htt) as (c1 & k1 & b' & E1 & Hb' & E2 & Hin). rewrite Ek in E1. injection E1 as <- <-.
+      assert (Hb'B : In b' B) by (destruct (B_shape S B HB) as (l1 & B2' & E); rewrite E in Hb' |- *; right; exact Hb').
+      destruct (IH b' Hb'B E2 Hv) as (L & ND & Hincl & Hlen & Hle).
+      exists ((c :: mkkey pi) :: L). repeat split.
+      + constructor; [|exact ND]. intros Hin'. apply Hle in Hin'. unfold mkkey in Hin'. cbn [length] in Hin'.
+        rewrite app_length, rev_length in Hin'. cbn [length] in Hin'. lia.
+      + intros k [<-|Hk]; [|auto]. rewrite <- Ek. apply in_map. exact Hb.
+      + cbn [length]. rewrite Hlen, app_length. cbn [length]. lia.
+      + intros k [<-|Hk].
+        * unfold mkkey. cbn [length]. rewrite !app_length, rev_length. cbn [length]. lia.
+        * apply Hle in Hk. rewrite app_length. cbn [length]. lia.
+  Qed.
+
+  Lemma idToStr_spec pi : forall fuel n c, Forall vbyte pi -> nthN (rows_of B) n = Some (mkkey pi, c) ->
+    (length pi < fuel)%nat -> xbw_idToStr d fuel n = Some (pi ++ [c]).
+  Proof.
+    destruct (row0 S B HB) as [R0 R1].
+    induction pi as [|c' pi IH] using rev_ind; intros fuel n c Hv Hrow Hf.
+    - destruct fuel as [|f]; [lia|]. cbn [xbw_idToStr].
+      assert (n <> 1) by (intros ->; rewrite R1 in Hrow; discriminate).
+      assert (n <> 0) by (intros ->; rewrite R0 in Hrow; discriminate).
+      replace (n =? 1) with false by lia.
+      destruct (ai_rowsA _ _ _ HA n _ c Hrow) as (c0 & k0 & E0 & HnA & HrA). unfold mkkey in E0. cbn in E0. injection E0 as <- <-.
+      assert (U0 : used B 0 = true) by reflexivity.
+      destruct (used_facts S B d HA 0 ltac:(lia) U0) as (Hm & _ & Hsel). destruct (Hsel ltac:(lia)) as [Hy _].
+      unfold xbw_getParent. replace (n =? 0) with false by lia.
+      unfold A_rank1. replace (n <? lenN (x_A d)) with true by lia. rewrite HrA.
+      pose proof (ai_mapsmall _ _ _ HA 0). rewrite u32_small by (unfold W32; lia). rewrite Hy.
+      rewrite (NR_klt0 S B HB). cbn [N.eqb].
+      replace (xbw_idToStr d f 1) with (Some (@nil N)) by (destruct f; reflexivity).
+      rewrite (alpha_access_eq S B d HA n c (nthN_labels B n _ c Hrow)).
+      assert (Hl : In c (labels_of B)).
+      { apply nthN_labels in Hrow. unfold nthN in Hrow. apply nth_error_In in Hrow. exact Hrow. }
+      destruct (label_used S B HB c Hl) as [Hu Hc256].
+      destruct (used_facts S B d HA c Hc256 Hu) as (_ & Hun & _). rewrite Hun. reflexivity.
+    - destruct fuel as [|f]; [lia|]. rewrite app_length in Hf. cbn [length] in Hf. cbn [xbw_idToStr].
+      apply Forall_app in Hv as [Hv Hc]. inversion Hc as [|? ? Hc' _]; subst.
+      rewrite mkkey_snoc in Hrow.
+      assert (n <> 1).
+      { intros ->. rewrite R1 in Hrow. injection Hrow as E1 _. unfold vbyte in Hc'. lia. }
+      replace (n =? 1) with false by lia.
+      destruct (getParent_spec S B d HB HA n c' (mkkey pi) c ltac:(assumption) Hrow) as (p & Hp & Hprow).
+      rewrite Hp. rewrite (IH f p c' Hv Hprow ltac:(lia)).
+      rewrite (alpha_access_eq S B d HA n c (nthN_labels B n _ c Hrow)).
+      assert (Hl : In c (labels_of B)).
+      { apply nthN_labels in Hrow. unfold nthN in Hrow. apply nth_error_In in Hrow. exact Hrow. }
+      destruct (label_used S B HB c Hl) as [Hu Hc256].
+      destruct (used_facts S B d HA c Hc256 Hu) as (_ & Hun & _). rewrite Hun. reflexivity.
+  Qed.
+
+  Hypothesis HS : S <> [].
+  Hypothesis HND : NoDup S.
+
+  Lemma order_len : lenN (xbw_order_of B) = lenN S.
+  Proof. unfold lenN. rewrite (Permutation_length (xbw_order_perm S B HB HND)). reflexivity. Qed.
+
+  Theorem xbw_extract_spec id : xbw_extract d id = Some (spec_extract (xbw_order_of B) id).
+  Proof.
+    unfold xbw_extract. rewrite (ai_elems _ _ _ HA), <- order_len.
+    destruct ((0 <? id) && (id <=? lenN (xbw_order_of B))) eqn:Hr.
+    2:{ f_equal. symmetry. apply spec_extract_out_of_range. apply andb_false_iff in Hr. lia. }
+    apply andb_prop in Hr as [H1 H2].
+    assert (Hlt : (N.to_nat (id - 1) < length (filter (has 255) B))%nat).
+    { assert (E : lenN (xbw_order_of B) = lenN (filter (has 255) B)) by (unfold xbw_order_of; apply lenN_map).
+      rewrite E in H2. unfold lenN in H2. lia. }
+    destruct (nth_error (filter (has 255) B) (N.to_nat (id - 1))) as [bl|] eqn:En;
+      [|apply nth_error_None in En; lia].
+    destruct (nth_filter_split _ _ _ _ En) as (C1 & C2 & EC & HjC & Hhas).
+    assert (HblB : In bl B) by (rewrite EC; apply in_or_app; right; left; reflexivity).
+    pose proof (has255_tl S B HB bl HblB Hhas) as Htl.
+    apply has_In in Hhas. destruct (in_split _ _ Hhas) as (l1 & l2 & El).
+    assert (Hok : okc 255 bl) by (apply (B_okc S B HB); [lia|exact HblB]).
+    assert (Hl1 : seq_count 255 l1 = 0).
+    { unfold okc in Hok. replace (has 255 bl) with true in Hok by (symmetry; apply has_In; exact Hhas).
+      rewrite El, seq_count_app, seq_count_cons, N.eqb_refl in Hok. lia. }
+    assert (HcntC1 : seq_count 255 (labels_of C1) = id - 1).
+    { rewrite (cnt_labels 255).
+      - unfold lenN. rewrite HjC. lia.
+      - intros x Hx. apply (B_okc S B HB); [lia|]. rewrite EC. apply in_or_app. left. exact Hx. }
+    set (p := lenN (labels_of C1) + lenN l1).
+    assert (Hprow : nthN (rows_of B) p = Some (fst bl, 255)).
+    { rewrite EC at 1. unfold p. apply (row_compose C1 bl C2 l1 255 l2 El). }
+    assert (Hpsel : seq_select 255 (labels_of B) id = Some p).
+    { replace id with (id - 1 + 1) at 1 by lia.
+      rewrite EC at 1. rewrite labels_app. change (labels_of (bl :: C2)) with (snd bl ++ labels_of C2).
+      rewrite El. rewrite <- app_assoc. cbn [app]. rewrite app_assoc. unfold p. rewrite <- lenN_app.
+      apply select_at. rewrite seq_count_app. lia. }
+    assert (H255 : In 255 (labels_of B)) by (unfold labels_of; apply in_flat_map; eauto).
+    destruct (label_used S B HB 255 H255) as [U255 _].
+    unfold alpha_select, seq_select. rewrite (ai_max _ _ _ HA), (alpha_bits S B d HB HA 255 ltac:(lia) U255).
+    fold (seq_select 255 (labels_of B) id). rewrite Hpsel.
+    pose proof (nodes_small S B d HA) as Hsm.
+    assert (Hpn : p < lenN (labels_of B)) by (apply nthN_Some_lt in Hprow; rewrite rows_len in Hprow; exact Hprow).
+    rewrite u32_small by lia.
+    destruct (row0 S B HB) as [_ R1].
+    assert (p <> 1) by (intros E; rewrite E in Hprow; rewrite R1 in Hprow; discriminate).
+    replace (p =? 1) with false by lia.
+    destruct (key_form S B HB bl Htl) as (r & Er & Hvr).
+    assert (Ekey : fst bl = mkkey (rev r)) by (unfold mkkey; rewrite rev_involutive; exact Er).
+    assert (Hvrev : Forall vbyte (rev r)).
+    { apply Forall_forall. intros x Hx. apply in_rev in Hx. rewrite Forall_forall in Hvr. auto. }
+    destruct (depth_bound (rev r) bl HblB Ekey Hvrev) as (L & ND & Hincl & Hlen & _).
+    pose proof (NoDup_incl_length ND Hincl) as HL. rewrite map_length in HL.
+    pose proof (neb_len B (B_neb S B HB)) as HnB. unfold lenN in HnB.
+    rewrite Ekey in Hprow.
+    rewrite (idToStr_spec (rev r) (xfuel d) p 255 Hvrev Hprow).
+    2:{ unfold xfuel. pose proof (alpha_len S B d HA) as Hal. unfold lenN in Hal. unfold blk in *. lia. }
+    rewrite removelast_snoc. do 2 f_equal. unfold spec_extract. replace (id =? 0) with false by lia.
+    unfold xbw_order_of, nthN. rewrite nth_error_map.
+    match goal with |- _ = option_map _ ?X => replace X with (Some bl) by (symmetry; exact En) end.
+    cbn [option_map]. rewrite Er, unkey_app. reflexivity.
+  Qed.
+End Extract.
+
+(* ================================================================== *)
+(* 8. exported statements                                               *)
+(* ================================================================== *)
+Lemma valid_set_facts S : valid_set S -> S <> [] /\ NoDup S.
+Proof. intros (H1 & _ & H3). split; [exact H1|apply sorted_NoDup; exact H3]. Qed.
+
+Section Top.
+  Variables (S : list str) (d : xbw).
+  Hypothesis HV : valid_set S.
+  Hypothesis HC : xbw_check S d = true.
+  Let B := trie_blocks S.
+  Let HB : binv S B := proj1 (xbw_check_sound S d HC).
+  Let HA : ainv S B d := proj2 (xbw_check_sound S d HC).
+
+  (* the IDs are a bijection [1,n] <-> S: the members in the order of their terminator leaves, i.e. sorted by
+     their upward paths (= by the reversed strings) *)
+  Theorem XBW_order_perm : Permutation S (xbw_order S).
+  Proof. apply (xbw_order_perm S B HB). apply valid_set_facts. exact HV. Qed.
+
+  Theorem XBW_order_sorted : StronglySorted (fun a b => lex_lt (mkkey a) (mkkey b)) (xbw_order S).
+  Proof. apply (xbw_order_sorted S B HB). Qed.
+
+  (* 2. subPathSearch: the resulting interval is exactly the set of rows (nodes) whose upward path starts with
+     the reversed pattern.  c0 = 0 is the root label locate / locatePrefix prepend. *)
+  Theorem XBW_subPathSearch_spec c0 c1 rest : c0 = 0 \/ qchar c0 -> Forall qchar (c1 :: rest) ->
+    exists l r, xbw_subPathSearch d (c0 :: c1 :: rest) = Some (l, r) /\
+      forall i k c, nthN (rows_of B) i = Some (k, c) ->
+        (l <= i <= r <-> is_prefix (rev (c0 :: c1 :: rest)) k = true).
+  Proof.
+    intros H0 Hq. destruct (xbw_subPathSearch_spec S B d HB HA c0 c1 rest H0 Hq) as (l & r & E & HR).
+    exists l, r. split; [exact E|]. intros i k c Hrow.
+    pose proof (row_range S B HB (rev (c0 :: c1 :: rest)) i k c Hrow) as Hrr.
+    unfold Res in HR. destruct (N.leb_spec l r) as [Hlr|Hlr].
+    - destruct HR as [-> Er]. rewrite <- Hrr. lia.
+    - unfold Emp in HR. assert (NR (klt (rev (c0 :: c1 :: rest))) B = NR (kle (rev (c0 :: c1 :: rest))) B)
+        by (unfold NR; now rewrite HR).
+      rewrite <- Hrr. lia.
+  Qed.
+
+  (* 3. locate / extract *)
+  Theorem XBW_locate_spec q : q <> [] -> Forall qchar q -> xbw_locate d q = Some (spec_locate (xbw_order S) q).
+  Proof. intros. apply (xbw_locate_spec S B d HB HA); auto. apply valid_set_facts. exact HV. Qed.
+
+  Theorem XBW_extract_spec id : xbw_extract d id = Some (spec_extract (xbw_order S) id).
+  Proof. apply (xbw_extract_spec S B d HB HA); apply valid_set_facts; exact HV. Qed.
+
+  Lemma member_qchar s : In s S -> s <> [] /\ Forall qchar s.
+  Proof.
+    intros Hs. destruct HV as (_ & Hf & _). rewrite Forall_forall in Hf. destruct (Hf s Hs) as [H1 H2].
+    split; [exact H1|]. eapply Forall_impl; [|exact H2]. intros b Hb. unfold valid_byte in Hb. unfold qchar. lia.
+  Qed.
+
+  Theorem XBW_locate_member s : In s S ->
+    exists id, 1 <= id <= lenN S /\ xbw_locate d s = Some id /\ xbw_extract d id = Some (Some s).
+  Proof.
+    intros Hs. destruct (member_qchar s Hs) as [H1 H2].
+    assert (Hin : In s (xbw_order S)) by (apply (Permutation_in _ XBW_order_perm); exact Hs).
+    exists (spec_locate (xbw_order S) s). split; [|split].
+    - pose proof (spec_locate_member _ _ Hin) as H. unfold lenN in *. rewrite (Permutation_length XBW_order_perm). exact H.
+    - apply XBW_locate_spec; assumption.
+    - rewrite XBW_extract_spec. f_equal. apply spec_extract_locate. exact Hin.
+  Qed.
+
+  Theorem XBW_locate_absent q : q <> [] -> Forall qchar q -> ~ In q S -> xbw_locate d q = Some 0.
+  Proof.
+    intros H1 H2 Hn. rewrite XBW_locate_spec by assumption. f_equal. apply spec_locate_absent.
+    intros Hin. apply Hn. apply (Permutation_in _ (Permutation_sym XBW_order_perm)). exact Hin.
+  Qed.
+
+  Theorem XBW_extract_range id : 1 <= id <= lenN S ->
+    exists s, In s S /\ xbw_extract d id = Some (Some s) /\ xbw_locate d s = Some id.
+  Proof.
+    intros Hid. assert (Hl : lenN (xbw_order S) = lenN S) by (unfold lenN; now rewrite (Permutation_length XBW_order_perm)).
+    destruct (spec_extract_in_range (xbw_order S) id ltac:(lia)) as (s & Es & Hin).
+    assert (Hs : In s S) by (apply (Permutation_in _ (Permutation_sym XBW_order_perm)); exact Hin).
+    exists s. split; [exact Hs|]. split; [rewrite XBW_extract_spec, Es; reflexivity|].
+    destruct (member_qchar s Hs) as [H1 H2]. rewrite XBW_locate_spec by assumption. f_equal.
+    apply spec_locate_extract; [|exact Es]. apply (order_NoDup S B HB).
+  Qed.
+
+  Theorem XBW_extract_out_of_range id : id = 0 \/ lenN S < id -> xbw_extract d id = Some None.
+  Proof.
+    intros H. rewrite XBW_extract_spec. f_equal. apply spec_extract_out_of_range.
+    assert (Hl : lenN (xbw_order S) = lenN S) by (unfold lenN; now rewrite (Permutation_length XBW_order_perm)). lia.
+  Qed.
+
+  (* 1. navigation, upward half: getParent of a node below the root is the row of its parent *)
+  Theorem XBW_getParent_spec n c' k' c : vbyte c' -> nthN (rows_of B) n = Some (c' :: k', c) ->
+    exists p, xbw_getParent d n = Some p /\ nthN (rows_of B) p = Some (k', c').
+  Proof. apply (getParent_spec S B d HB HA). Qed.
+
+  (* 4. (partial) the range handed to the prefix iterators is exactly the sibling block below the node p *)
+  Theorem XBW_prefix_range p : p <> [] -> Forall qchar p ->
+    exists l r, xbw_subPathSearch d (0 :: p) = Some (l, r) /\
+      forall i k c, nthN (rows_of B) i = Some (k, c) -> (l <= i <= r <-> k = mkkey p).
+  Proof.
+    intros Hp Hq. destruct p as [|c1 rest] eqn:Ep; [congruence|]. rewrite <- Ep in *.
+    destruct (XBW_subPathSearch_spec 0 c1 rest (or_introl eq_refl) ltac:(rewrite <- Ep; exact Hq)) as (l & r & E & H).
+    rewrite <- Ep in E, H. exists l, r. split; [exact E|]. intros i k c Hrow. rewrite (H i k c Hrow).
+    replace (rev (0 :: p)) with (rev p ++ [0]) by reflexivity. split.
+    - intros Hpre. destruct (row_decomp B i k c Hrow) as (B1 & b & B2 & t & EB & _ & _ & Ek & _).
+      assert (Hb : In b B) by (rewrite EB; apply in_or_app; right; left; reflexivity).
+      rewrite <- Ek in *. apply (prefix_key S B HB p b); assumption.
+    - intros ->. unfold mkkey. replace (rev p ++ [0; 0]) with ((rev p ++ [0]) ++ [0]) by (rewrite <- app_assoc; reflexivity).
+      apply is_prefix_app. eauto.
+  Qed.
+End Top.
+
+(* ---- statements not proved (kept at full strength) -------------------------------------------------- *)
+(* 1. navigation, downward half: getChildren of a node other than root2 is exactly the set of its children *)
+Definition xbw_getChildren_spec_full : Prop :=
+  forall S d n k c, valid_set S -> xbw_check S d = true ->
+    nthN (rows_of (trie_blocks S)) n = Some (k, c) -> 1 <= n -> c <> 255 ->
+    exists ini fin, xbw_getChildren d n = Some (ini, fin) /\ ini <= fin /\
+      forall i k' c', nthN (rows_of (trie_blocks S)) i = Some (k', c') -> (ini <= i <= fin <-> k' = c :: k).
+
+(* 4. the prefix iterators *)
+Definition xbw_locatePrefix_spec_full : Prop :=
+  forall S d p, valid_set S -> xbw_check S d = true -> p <> [] -> Forall qchar p ->
+    exists ids, xbw_locatePrefix d p (3 + length S) = Some (ids, false) /\ NoDup ids /\
+      forall id, In id ids <-> exists s, In s S /\ is_prefix p s = true /\ id = spec_locate (xbw_order S) s.
+
+Definition xbw_extractPrefix_spec_full : Prop :=
+  forall S d p, valid_set S -> xbw_check S d = true -> p <> [] -> Forall qchar p -> lenN p <= spec_maxlen S + 2 ->
+    exists l, xbw_extractPrefix d p (3 + length S) = Some (l, false) /\
+      Permutation (map fst l) (filter (is_prefix p) S) /\ forall s n, In (s, n) l -> n = lenN s.
+
+(* ---- defects of the C++ reproduced by the faithful model -------------------------------------------- *)
+Definition ex_mapping (tab : list (N * N)) : list N :=
+  map (fun i => match find (fun e => fst e =? i) tab with Some e => snd e | None => 0 end) (map N.of_nat (seq 0 257)).
+
+(* the object the real code builds (and reloads) for S = {"a"}: dump of xbw_build 61 *)
+Definition ex1_S : list str := [[97]].
+Definition ex1_d : option xbw :=
+  xbw_load 4 (ex_mapping [(0, 1); (97, 2); (255, 3); (256, 4)]) [1; 1; 2; 3]
+    [false; true; true; true] [true; false; false; true; true] 1 2.
+
+(* locate("") is a false positive: the empty string is not a member, the answer is n *)
+Theorem xbw_locate_empty_refuted :
+  exists S d, valid_set S /\ xbw_check S d = true /\ ~ In [] S /\ xbw_locate d [] = Some 1.
+Proof.
+  destruct ex1_d as [d|] eqn:E; [|vm_compute in E; discriminate].
+  exists ex1_S, d. vm_compute in E. injection E as <-. split; [|split; [|split]].
+  - split; [discriminate|]. split; [|constructor]. constructor; [|constructor]. split; [discriminate|].
+    constructor; [|constructor]. unfold valid_byte. lia.
+  - vm_compute. reflexivity.
+  - intros [H|[]]. discriminate.
+  - vm_compute. reflexivity.
+Qed.
+
+(* extractPrefix copies the pattern into a buffer of maxlength + 1 bytes: a longer pattern overflows it *)
+Theorem xbw_extractPrefix_long_refuted :
+  exists S d p, valid_set S /\ xbw_check S d = true /\ Forall qchar p /\ xbw_extractPrefix d p 4 = None.
+Proof.
+  destruct ex1_d as [d|] eqn:E; [|vm_compute in E; discriminate].
+  exists ex1_S, d, [97; 97; 97; 97]. vm_compute in E. injection E as <-. split; [|split; [|split]].
+  - split; [discriminate|]. split; [|constructor]. constructor; [|constructor]. split; [discriminate|].
+    constructor; [|constructor]. unfold valid_byte. lia.
+  - vm_compute. reflexivity.
+  - repeat constructor; unfold qchar; lia.
+  - vm_compute. reflexivity.
+Qed.
